@@ -400,6 +400,19 @@ def check_match(sh, rng):
             state['n'], state['alt'] = 0, alt_
             f = subst_incons(p)
             run_match(sh, f, p, wilds, 'mutant', 'repeated-wildcard-inconsistent')
+        # one occurrence faces the wildcard's own identifier (expressions may mention it), the other the binding: both orders
+        wself = [wv for wv in wilds if exprgen.canon(wv) == k][0]
+        if exprgen.canon(b[k]) != k:
+            state['n'], state['alt'] = 0, wself
+            run_match(sh, subst_incons(p), p, wilds, 'mutant', 'repeated-wildcard-faces-itself')
+            saved = b[k]
+            state['n'], state['alt'] = 0, saved
+            b[k] = wself
+            try:
+                f = subst_incons(p)
+            finally:
+                b[k] = saved
+            run_match(sh, f, p, wilds, 'mutant', 'repeated-wildcard-faces-itself')
         # and the reverse order: the near-twin first, the binding second
         if b[k].__class__.__name__ == 'ExprOp':
             for alt_ in alts[-2:]:
@@ -444,6 +457,11 @@ def fixed_match_cases(sh):
         ('repeat', ex.ExprOp('+', a, a), [a], ex.ExprOp('+', x, y)),
         ('repeat-cond', ex.ExprCond(a, a, b), [a, b], ex.ExprCond(x, y, z)),
         ('kind', ex.ExprOp('+', a, b), [a, b], ex.ExprMem(x, 32)),
+        ('repeat-self-first', ex.ExprOp('+', a, a), [a], ex.ExprOp('+', a, x)),
+        ('repeat-self-second', ex.ExprOp('+', a, a), [a], ex.ExprOp('+', x, a)),
+        ('repeat-self-cond', ex.ExprCond(a, a, a), [a], ex.ExprCond(x, a, x)),
+        ('repeat-self-mem', ex.ExprOp('^', ex.ExprMem(ex.ExprOp('+', a, I(44, 32)), 32), a), [a], ex.ExprOp('^', ex.ExprMem(ex.ExprOp('+', a, I(44, 32)), 32), y)),
+        ('repeat-self-two', ex.ExprOp('+', ex.ExprOp('<<', b, a), ex.ExprOp('&', b, b)), [a, b], ex.ExprOp('+', ex.ExprOp('<<', y, a), ex.ExprOp('&', b, y))),
         ('wild-width', ex.ExprOp('+', a, b), [a, b], ex.ExprOp('+', Id('x8', 8), Id('y8', 8))),
     ]
     for name, p, wilds, f in cases:
@@ -454,6 +472,8 @@ def fixed_match_cases(sh):
         (ex.ExprCond(a, b, b), [a, b], ex.ExprCond(x, y, y)),
         (ex.ExprCompose([(a8, 0, 8), (a8, 8, 16)]), [a8], ex.ExprCompose([(Id('x8', 8), 0, 8), (Id('x8', 8), 8, 16)])),
         (ex.ExprSlice(a, 0, 8), [a], ex.ExprSlice(ex.ExprOp('^', x, y), 0, 8)),
+        (ex.ExprOp('+', a, a), [a], ex.ExprOp('+', a, a)),
+        (ex.ExprOp('+', a, ex.ExprOp('*', x, a)), [a], ex.ExprOp('+', b, ex.ExprOp('*', x, b))),
     ]
     for p, wilds, e in inst:
         run_match(sh, e, p, wilds, 'instance')
